@@ -70,6 +70,10 @@ pub proof fn axiom_nonzero_u32_ext(a: NonZeroU32, b: NonZeroU32)
     ensures a == b
 { }
 
+// ---- std::slice::Iter::size_hint is exact (A-std: documented for slice iterators)
+pub assume_specification<'a, T> [<std::slice::Iter<'a, T> as std::iter::Iterator>::size_hint] (it: &std::slice::Iter<'a, T>) -> (r: (usize, Option<usize>))
+    ensures r.0 == it.remaining().len(), r.1 == Some(it.remaining().len() as usize);
+
 // ---- core's reflexive `impl<T> From<T> for T` (hence `Into<T> for T`) is the identity (A-std; its body is not in the verified text)
 #[verifier::external_body]
 pub proof fn axiom_into_reflexive<T>(x: T)
